@@ -65,6 +65,14 @@ def _iops():
 
     ops["insert-merge-unstripped-label"] = (["a", "b"], None, ins_ws)
 
+    for m in ("replace", "merge"):
+
+        def ins_err(t, o, a, b, m=m):
+            t.insertEntry(Interval(a, b, "n"), m, "error")  # raises CollisionError after a collision
+            return t
+
+        ops["insert-%s-reporting-error" % m] = (["a", "b"], None, ins_err)
+
     def dele(t, o, a, b):
         t.deleteEntry(Interval(a, b, "x"))
         return t
@@ -188,6 +196,14 @@ def _pops():
             return t
 
         ops["insert-%s" % m] = (["a"], ins)
+
+    for m in ("replace", "merge"):
+
+        def ins_err(t, o, a, m=m):
+            t.insertEntry(Point(a, "n"), m, "error")
+            return t
+
+        ops["insert-%s-reporting-error" % m] = (["a"], ins_err)
 
     def dele(t, o, a):
         t.deleteEntry(Point(a, "x"))
